@@ -1,6 +1,7 @@
 use super::{AlongAxis, Axis, BoxConstraint, Layout, View, ViewContext, ViewLayout, ViewMutLayout};
 use crate::{
-    Cell, CellWrite, Error, Face, FaceAttrs, Position, Size, TerminalSurface, TerminalSurfaceExt,
+    Cell, CellWrite, Error, Face, FaceAttrs, Position, Size, Surface, TerminalSurface,
+    TerminalSurfaceExt,
 };
 use std::cmp::max;
 
@@ -62,6 +63,8 @@ impl View for ScrollBar {
         };
 
         let mut surf = layout.apply_to(surf);
+        // only cells that fit the surface are drawn, layout can be much larger than the surface
+        let major = major.min(self.direction.major(surf.size()));
         let mut writer = surf.writer(ctx);
         let fg = Face::new(None, self.face.fg, FaceAttrs::EMPTY);
         let bg = Face::new(None, self.face.bg, FaceAttrs::EMPTY);
